@@ -31,7 +31,7 @@ def tree_streams(check, prop):
     helper = TreeCheck(check.tier, check.seed)
     helper.rng = rng
     aspects = {"C11": ("ledger", "map", "shape"), "C12": ("copies", "map", "walk", "nearest"),
-               "C15": ("atomic", "ledger", "map")}[prop]
+               "C15": ("atomic", "ledger", "map", "walk", "nearest")}[prop]
 
     def oracle(ops, lines):
         o = TreeOracle(aspects)
@@ -53,6 +53,8 @@ def tree_streams(check, prop):
     keys = [b"k%02d" % i for i in range(9)]
     sts.append(S("null-data-values", TreeCheck.nulldata_ops(faults=(prop == "C15")) + ["end"]))
     sts.append(S("string-level-api", TreeCheck.stringapi_ops(big) + ["end"]))
+    if prop == "C15":
+        sts.append(S("faults-inside-walks", TreeCheck.fault_walk_ops(big) + ["end"]))
     if prop == "C15":
         # every allocating operation x failure at the 1st, 2nd, ... allocation (single and
         # "all from k on"), from a corpus of prefix states; full observation afterwards
